@@ -61,6 +61,13 @@ def run(ctx):
         with slevel.Sandbox("c09") as sb:
             H = runs.History(ctx, sb, rng, "C09", rng.randrange(1, 4), rng.randrange(2, 5), nitems=2, identity_changes=True)
             H.w.populate(nfiles=12)
+            # files whose modification time lies before 1970 and has a sub-second part (restored from old media): never edited, so every run
+            # after their first must leave them unread
+            for k, (sec, nsec) in enumerate([(-157766400, 500000000), (-1, 999999999), (-315619200, 1)]):
+                pth = os.path.join(H.w.src, H.w.items[k % 2], "keeper-old-%d" % k)
+                H.w.write_file(pth, bytes((i * 3 + k) % 251 for i in range(700 + k)))
+                os.utime(pth, ns=(sec * 10 ** 9 + nsec, sec * 10 ** 9 + nsec))
+                ctx.count("files.pre-1970-fractional-mtime")
             for i in range(nruns):
                 trace = sb.path("trace-%d.txt" % i)
                 before = H.dec
